@@ -50,13 +50,36 @@ def report_violation(prop, world, seed, res, repo):
     run = core._reproduces(world, prop, res["header"], ops, vclass, res["run_seed"])
     if run is None:
         ops = res["ops"]
-        run = core._reproduces(world, prop, res["header"], ops, vclass, res["run_seed"])
+        for _ in range(3):
+            run = core._reproduces(world, prop, res["header"], ops, vclass, res["run_seed"])
+            if run is not None:
+                break
     if run is None:
-        raise HarnessError("violation %r of run %d does not reproduce in-process" % (vclass, res["index"]))
+        # The violation was observed against the real code (the recorded detail is the counterexample), but the
+        # recorded operations do not reproduce it: the failing behaviour depends on state outside the simulator's
+        # seams (object identity / allocator state, e.g. an id()-keyed cache).  Reported, unminimised, and said so.
+        fake = core.Run(prop, world, res["run_seed"])
+        fake.violations = [v]
+        path, doc = core.write_replay(prop, world, seed, res, ops, fake, repo)
+        doc["reproducible"] = False
+        json.dump(doc, open(path, "w"), indent=1)
+        out("  %s/%s: %s" % (v["prop"], v["inv"], v["detail"][:600]))
+        out("  NOTE: observed in run %d (run_seed %d) but not reproducible from its operation list: the behaviour depends on "
+            "state outside the simulator's control (object identity / allocator); trace kept unminimised" % (res["index"], res["run_seed"]))
+        out("VIOLATION property=%s replay=%s" % (prop, path))
+        return path
     path, doc = core.write_replay(prop, world, seed, res, ops, run, repo)
     ok, tail = core.verify_replay_fresh(path, doc["digest"])
     if not ok:
-        raise HarnessError("replay %s does not reproduce in a fresh interpreter:\n%s" % (path, tail))
+        ok, tail = core.verify_replay_fresh(path, doc["digest"])
+    if not ok:
+        # reproduced in this process but not in a fresh interpreter: the failing behaviour depends on interpreter
+        # state outside the seams (object identity / allocator).  Harness nondeterminism is excluded separately by
+        # selftest-determinism; the observation against the real code stands and is reported.
+        doc["reproducible"] = "in-process only"
+        json.dump(doc, open(path, "w"), indent=1)
+        out("  NOTE: reproduces in-process but not in a fresh interpreter (depends on interpreter state outside the "
+            "simulator's control, e.g. object identity)")
     out("  %s/%s: %s" % (v["prop"], v["inv"], v["detail"][:600]))
     out("  minimised from %d to %d operations; digest=%s" % (len(res["ops"]), len(ops), doc["digest"]))
     out("VIOLATION property=%s replay=%s" % (prop, path))
@@ -113,6 +136,7 @@ def check(prop, tier):
             out("  regression reproduces: %s" % doc.get("detail", "")[:400])
             out("VIOLATION property=%s replay=%s" % (prop, path))
         reported = set()
+        harness_errors = []
         for stage in plan["stages"]:
             if "custom" in stage:
                 rs = stage["custom"](prop, tier, seed, cap - (time.time() - t0))
@@ -131,7 +155,7 @@ def check(prop, tier):
             results.extend(rs)
             for r in rs:
                 if r.get("status") == "harness_error":
-                    raise HarnessError("run %s/%d (run_seed %s) failed:\n%s" % (r["world"], r["index"], r["run_seed"], r["error"]))
+                    harness_errors.append("run %s/%d (run_seed %s) failed:\n%s" % (r["world"], r["index"], r["run_seed"], r["error"]))
             for r in rs:
                 if r.get("violations"):
                     v = r["violations"][0]
@@ -147,6 +171,12 @@ def check(prop, tier):
                         out("VIOLATION property=%s replay=%s" % (prop, r["replay_path"]))
                     else:
                         report_violation(prop, r["world"], seed, r, repo)
+        if harness_errors:
+            if status != EXIT_VIOLATION:
+                raise HarnessError(harness_errors[0])
+            # violations were reported; runs in which the (broken) code also broke the harness's own assumptions
+            err("note: %d run(s) ended in a harness error after violations were reported; first: %s" % (len(harness_errors), harness_errors[0][-400:]))
+            extra["harness_errors"] = len(harness_errors)
         seen = {}
         for r in results:
             for k in r.get("known_hits", []):
